@@ -169,9 +169,10 @@ class EWDVisualizer:
         if orientation:
             for element in elements:
                 if 'source' in element.get('data', {}): # It's an edge
-                    edge_id_parts = element['data']['id'].split('-')
-                    id_v1_name = edge_id_parts[0]
-                    id_v2_name = edge_id_parts[1]
+                    # The endpoints are stored on the element itself; the id 'a-b-i' cannot be split
+                    # back into names when a vertex name contains '-'.
+                    id_v1_name = element['data']['source']
+                    id_v2_name = element['data']['target']
 
                     oriented_pair = orientation.get_orientation(id_v1_name, id_v2_name)
 
